@@ -11,4 +11,5 @@ CONSTANTS
   FixedStar = TRUE
   FixedFinalInString = TRUE
   FixedNestedLiteral = TRUE
+  BugBuiltinsFirst = FALSE
 CHECK_DEADLOCK FALSE
